@@ -86,9 +86,8 @@ add("C10",
     "them fail (witness lemmas). Correspondence: generated hostile strings placed in every string position through the real create_object / copy / "
     "commit, inventories re-read with an independent JSON parser, tokens compared in Coq with the model. Search: accepted operation followed by a "
     "failing open/list/commit/reset, or a string read back that differs.",
-    "Trusted: Coq kernel, Model/Json.v, harness, Python json. clap's argument decoding is outside. Known findings: borrowed-string readers "
-    "(json-escape-borrowed, validator-json-escape). Blank / inventory-named content directories and trimmed ids - repaired by d88c1da and "
-    "031a721 - are must-pass regression inputs.",
+    "Trusted: Coq kernel, Model/Json.v, harness, Python json. clap's argument decoding is outside. The borrowed-string readers (bb69bb9, "
+    "2f36fc5), blank / inventory-named content directories (d88c1da) and trimmed ids (031a721) were repaired: those inputs are must-pass.",
     "machine-checked proof in Coq (round-trip laws by induction on byte strings) + correspondence on generated strings")
 
 add("C11",
@@ -258,6 +257,24 @@ add("C05",
     "Process-kill model (calls already made are durable and ordered) is the property's stated model and is assumed. Type-changing commits "
     "(upgrade) are correspondence-checked only.",
     "machine-checked proof in Coq (all kill positions) + kill enumeration of the real commit under strace")
+
+
+add("C07",
+    "Coq theorems over an independent Gallina validator written from the OCFL 1.0/1.1 text (Model/JsonValue.v: JSON values, fuelled "
+    "parser, printer; Model/Validate.v: 37 inventory rules + object-level rules over a directory listing; Model/ValidateSpec.v: the "
+    "inventory MUST clauses as a declarative Prop): the executable inventory validator is sound and complete for the declarative spec "
+    "(all 31 clauses, every JSON value); the verdict (the whole error list) is invariant under reordering object members at any depth; "
+    "two byte strings that parse to the same value get the same verdict; every RFC 8259 spelling of a UTF-8 string (raw, two-character "
+    "escapes, \\uXXXX in either case, surrogate pairs, serde's own escaping, \\/) decodes to the string; parse (print v) = v for "
+    "well-formed values. Correspondence / search: on the official fixtures (78/78 by both independent validators), the custom fixtures, "
+    "objects written by rocfl through histories, 159 kinds of single spec-relevant edits (re-serialised with regenerated sidecars) and "
+    "structure edits, and respellings (escapes, key order, whitespace) of valid inventories, rocfl's verdict (CLI, with and without "
+    "fixity) is compared with the Gallina validator (evaluated by vm_compute) and with vplib/ocflv.py; a disagreement where the two "
+    "independent validators agree against rocfl is a violation with the object as replay.",
+    "Trusted: Coq kernel, Model/Validate.v + JsonValue.v (my reading of the spec), vplib/ocflv.py (second independent reading), hashlib "
+    "digests, the object abstraction in vplib/vallib.py. Object-level rules (layer 3) and document-level agreement with rocfl are "
+    "correspondence-checked only. Escaped spellings of strings - repaired by 2f36fc5 - are must-pass inputs.",
+    "machine-checked proof in Coq (validator = declarative spec, permutation and respelling invariance) + three-way differential on fixtures, written objects and single edits")
 
 NOT_APPLICABLE = []  # filled below for every property without a check yet
 
